@@ -1,11 +1,13 @@
 import PbVerif.Lemmas.Weighting
+import PbVerif.Lemmas.WExpr
+import PbVerif.Lemmas.WeightingReal
 import PbVerif.Lemmas.Wrapper
 /-! C09 — each reweighting step follows the documented rule and the stop rule is honest.
 The rules are the definitions of `Model/Weighting.lean` (the same definitions the driver runs at
 `Float`), proved here over every linear ordered field with any positive monotone `exp`, any `sqrt`
 with its defining properties and the field's absolute value. -/
 namespace PbVerif.C09
-open PbVerif.Weighting PbVerif.Lemmas PbVerif.Loop
+open PbVerif.Weighting PbVerif.Lemmas PbVerif.Loop PbVerif.WExpr PbVerif.Gen
 
 variable {α : Type} [Field α] [LinearOrder α] [IsStrictOrderedRing α] [T : Transc α] (hT : TranscOk T)
 include hT
@@ -49,6 +51,133 @@ theorem quantile_bounds (q eps r : α) (hq : 0 < q ∧ q < 1) (he : 0 < eps) :
 /-- brpls: range for any erf value in [−1, 1] (partial: monotonicity needs analytic facts about erf not available in Mathlib) -/
 theorem brpls_range_partial (m u e : α) (hm : 0 ≤ m) (he : -1 ≤ e ∧ e ≤ 1) : 0 < brplsW m u e ∧ brplsW m u e ≤ 1 :=
   Lemmas.brpls_range hT m u e hm he
+
+/-! ### Route A: the same statements about the expressions TRANSLATED FROM THE SOURCE on every run
+
+`Gen.Src.<rule>` (`Gen/WeightExprs.lean`) is the final weight expression of `_weighting._<rule>` parsed from the working
+tree by `harness/pbv/translate_weights.py` (local names inlined, `r` = the point's `y - baseline`, the step statistics
+`std`, `meanNeg`, `sumNeg`, `maxNegW`, the machine constants `clipMax`, `minFloat` and the scalar arguments as named
+inputs of the environment).  `gen_<rule>_eq_model` says that it denotes the hand model's per-point function, so an edit of
+a constant, a sign or an operator of the source makes it fail; `src_<rule>_range` / `src_<rule>_antitone` carry the
+theorems above over to the source expression.  `atR env r` is `env` at another residual.  brpls is not translated
+(erf, finfo-derived clips). -/
+section source
+omit hT
+set_option linter.unusedSectionVars false
+
+theorem gen_asls_eq_model (env : Env α) : eval env Src.asls = aslsW (env.s "p") env.r := Lemmas.gen_asls_eq_model env
+theorem gen_arpls_eq_model (env : Env α) : eval env Src.arpls = arplsW (env.s "std") (env.s "meanNeg") env.r :=
+  Lemmas.gen_arpls_eq_model env
+theorem gen_aspls_eq_model (env : Env α) : eval env Src.aspls = asplsW (env.s "asymmetric_coef") (env.s "std") env.r :=
+  Lemmas.gen_aspls_eq_model env
+/-- `expK it = exp(min(it, 100))`: the cap is part of the statement -/
+theorem gen_drpls_eq_model (env : Env α) :
+    eval env Src.drpls = drplsW (expK (env.n "iteration")) (env.s "std") (env.s "meanNeg") env.r := Lemmas.gen_drpls_eq_model env
+/-- `tenK it = 10 ^ min(it, 100)` -/
+theorem gen_lsrpls_eq_model (env : Env α) :
+    eval env Src.lsrpls = drplsW (tenK (env.n "iteration")) (env.s "std") (env.s "meanNeg") env.r := Lemmas.gen_lsrpls_eq_model env
+theorem gen_iarpls_eq_model (env : Env α) :
+    eval env Src.iarpls = iarplsW (expK (env.n "iteration")) (env.s "std") env.r := Lemmas.gen_iarpls_eq_model env
+theorem gen_psalsa_eq_model (env : Env α) : eval env Src.psalsa = psalsaW (env.s "p") (env.s "k") env.r :=
+  Lemmas.gen_psalsa_eq_model env
+theorem gen_derpsalsa_eq_model (env : Env α) :
+    eval env Src.derpsalsa = derpsalsaW (env.s "p") (env.s "k") (env.s "partial_weights") env.r := Lemmas.gen_derpsalsa_eq_model env
+/-- the source guards the denominator with `max(eps, _MIN_FLOAT)` -/
+theorem gen_quantile_eq_model (env : Env α) :
+    eval env Src.quantile = quantileW (env.s "quantile") (max (env.s "eps") (env.s "minFloat")) env.r :=
+  Lemmas.gen_quantile_eq_model env
+/-- `airplsT it = min(it, 50)`; `0 ≤ clipMax` (≈ 709.78 in the source) makes `np.clip(·, 0, clipMax)` the model's clip -/
+theorem gen_airpls_eq_model (env : Env α) (hM : 0 ≤ env.s "clipMax") :
+    eval env Src.airpls = airplsRaw (airplsT (env.n "iteration")) (env.s "sumNeg") (env.s "clipMax") env.r :=
+  Lemmas.gen_airpls_eq_model env hM
+theorem gen_airplsNorm_eq_model (env : Env α) (hM : 0 ≤ env.s "clipMax") :
+    eval env Src.airplsNorm =
+      airplsRaw (airplsT (env.n "iteration")) (env.s "sumNeg") (env.s "clipMax") env.r / env.s "maxNegW" :=
+  Lemmas.gen_airplsNorm_eq_model env hM
+
+include hT
+
+theorem src_asls_range (env : Env α) (hp : 0 ≤ env.s "p" ∧ env.s "p" ≤ 1) :
+    0 ≤ eval env Src.asls ∧ eval env Src.asls ≤ 1 := Lemmas.src_asls_range hT env hp
+theorem src_asls_antitone (env : Env α) (r₁ r₂ : α) (hp : env.s "p" ≤ 1 - env.s "p") (h : r₁ ≤ r₂) :
+    eval (atR env r₂) Src.asls ≤ eval (atR env r₁) Src.asls := Lemmas.src_asls_antitone hT env r₁ r₂ hp h
+theorem src_arpls_range (env : Env α) : 0 ≤ eval env Src.arpls ∧ eval env Src.arpls ≤ 1 := Lemmas.src_arpls_range hT env
+theorem src_arpls_antitone (env : Env α) (r₁ r₂ : α) (hs : 0 < env.s "std") (h : r₁ ≤ r₂) :
+    eval (atR env r₂) Src.arpls ≤ eval (atR env r₁) Src.arpls := Lemmas.src_arpls_antitone hT env r₁ r₂ hs h
+theorem src_aspls_range (env : Env α) : 0 ≤ eval env Src.aspls ∧ eval env Src.aspls ≤ 1 := Lemmas.src_aspls_range hT env
+theorem src_aspls_antitone (env : Env α) (r₁ r₂ : α) (hk : 0 ≤ env.s "asymmetric_coef") (hs : 0 < env.s "std")
+    (h : r₁ ≤ r₂) : eval (atR env r₂) Src.aspls ≤ eval (atR env r₁) Src.aspls := Lemmas.src_aspls_antitone hT env r₁ r₂ hk hs h
+theorem src_drpls_range (env : Env α) : 0 ≤ eval env Src.drpls ∧ eval env Src.drpls ≤ 1 := Lemmas.src_drpls_range hT env
+theorem src_drpls_antitone (env : Env α) (r₁ r₂ : α) (hs : 0 < env.s "std") (h : r₁ ≤ r₂) :
+    eval (atR env r₂) Src.drpls ≤ eval (atR env r₁) Src.drpls := Lemmas.src_drpls_antitone hT env r₁ r₂ hs h
+theorem src_lsrpls_range (env : Env α) : 0 ≤ eval env Src.lsrpls ∧ eval env Src.lsrpls ≤ 1 := Lemmas.src_lsrpls_range hT env
+theorem src_lsrpls_antitone (env : Env α) (r₁ r₂ : α) (hs : 0 < env.s "std") (h : r₁ ≤ r₂) :
+    eval (atR env r₂) Src.lsrpls ≤ eval (atR env r₁) Src.lsrpls := Lemmas.src_lsrpls_antitone hT env r₁ r₂ hs h
+theorem src_iarpls_range (env : Env α) : 0 ≤ eval env Src.iarpls ∧ eval env Src.iarpls ≤ 1 := Lemmas.src_iarpls_range hT env
+theorem src_iarpls_antitone (env : Env α) (r₁ r₂ : α) (hs : 0 < env.s "std") (h : r₁ ≤ r₂) :
+    eval (atR env r₂) Src.iarpls ≤ eval (atR env r₁) Src.iarpls := Lemmas.src_iarpls_antitone hT env r₁ r₂ hs h
+theorem src_psalsa_range (env : Env α) (hp : 0 ≤ env.s "p" ∧ env.s "p" ≤ 1) (hk : 0 < env.s "k") :
+    0 ≤ eval env Src.psalsa ∧ eval env Src.psalsa ≤ 1 := Lemmas.src_psalsa_range hT env hp hk
+theorem src_psalsa_antitone (env : Env α) (r₁ r₂ : α) (hp : 0 ≤ env.s "p" ∧ env.s "p" ≤ 1 - env.s "p")
+    (hk : 0 < env.s "k") (h : r₁ ≤ r₂) : eval (atR env r₂) Src.psalsa ≤ eval (atR env r₁) Src.psalsa :=
+  Lemmas.src_psalsa_antitone hT env r₁ r₂ hp hk h
+theorem src_derpsalsa_range (env : Env α) (hp : 0 ≤ env.s "p" ∧ env.s "p" ≤ 1) (hk : 0 < env.s "k")
+    (hpw : 0 ≤ env.s "partial_weights" ∧ env.s "partial_weights" ≤ 1) :
+    0 ≤ eval env Src.derpsalsa ∧ eval env Src.derpsalsa ≤ 1 := Lemmas.src_derpsalsa_range hT env hp hk hpw
+theorem src_derpsalsa_antitone (env : Env α) (r₁ r₂ : α) (hp : 0 ≤ env.s "p" ∧ env.s "p" ≤ 1 - env.s "p")
+    (hk : 0 < env.s "k") (hpw : 0 ≤ env.s "partial_weights") (h : r₁ ≤ r₂) :
+    eval (atR env r₂) Src.derpsalsa ≤ eval (atR env r₁) Src.derpsalsa := Lemmas.src_derpsalsa_antitone hT env r₁ r₂ hp hk hpw h
+/-- airPLS (the un-normalised exception): non-negative, antitone; `sumNeg < 0` holds whenever the early-exit guard passed -/
+theorem src_airpls_nonneg (env : Env α) (hM : 0 ≤ env.s "clipMax") : 0 ≤ eval env Src.airpls := Lemmas.src_airpls_nonneg hT env hM
+theorem src_airpls_antitone (env : Env α) (r₁ r₂ : α) (hS : env.s "sumNeg" < 0) (hM : 0 ≤ env.s "clipMax") (h : r₁ ≤ r₂) :
+    eval (atR env r₂) Src.airpls ≤ eval (atR env r₁) Src.airpls := Lemmas.src_airpls_antitone hT env r₁ r₂ hS hM h
+/-- with `normalize_weights`: in [0, 1] when `maxNegW` bounds the raw weight of the point (it is the maximum over the points) -/
+theorem src_airplsNorm_range (env : Env α) (hM : 0 ≤ env.s "clipMax") (hmx : 0 < env.s "maxNegW")
+    (hle : eval env Src.airpls ≤ env.s "maxNegW") : 0 ≤ eval env Src.airplsNorm ∧ eval env Src.airplsNorm ≤ 1 :=
+  Lemmas.src_airplsNorm_range hT env hM hmx hle
+theorem src_airplsNorm_antitone (env : Env α) (r₁ r₂ : α) (hS : env.s "sumNeg" < 0) (hM : 0 ≤ env.s "clipMax")
+    (hmx : 0 < env.s "maxNegW") (h : r₁ ≤ r₂) : eval (atR env r₂) Src.airplsNorm ≤ eval (atR env r₁) Src.airplsNorm :=
+  Lemmas.src_airplsNorm_antitone hT env r₁ r₂ hS hM hmx h
+/-- quantile-loss weight of the source: positive and bounded because `_MIN_FLOAT > 0` keeps the denominator away from 0 -/
+theorem src_quantile_bounds (env : Env α) (hq : 0 < env.s "quantile" ∧ env.s "quantile" < 1) (hmin : 0 < env.s "minFloat") :
+    0 < eval env Src.quantile ∧
+      eval env Src.quantile * Transc.sqrt (max (env.s "eps") (env.s "minFloat")) ≤ max (env.s "quantile") (1 - env.s "quantile") :=
+  Lemmas.src_quantile_bounds hT env hq hmin
+
+end source
+
+/-! non-vacuity.  (1) The hypotheses `TranscOk` are those of the real functions.  (2) Every translated expression is the
+source's (not the failure marker) and genuinely depends on the residual: at concrete inputs satisfying the hypotheses of
+the `src_*` theorems (`envQ`: std 2, meanNeg −1, sumNeg −4, p 1/100, k 2, iteration 3 …; a computable stand-in for exp over ℚ)
+the weight at a larger residual is strictly smaller, inside [0, 1]. -/
+section nonvacuity
+omit hT
+example : TranscOk realTransc := realTranscOk
+attribute [local instance] realTransc in
+example (env : Env ℝ) (r₁ r₂ : ℝ) (hs : 0 < env.s "std") (h : r₁ ≤ r₂) :
+    eval (atR env r₂) Src.arpls ≤ eval (atR env r₁) Src.arpls := src_arpls_antitone realTranscOk env r₁ r₂ hs h
+attribute [local instance] ratTransc
+example : Src.aslsTranslated = true ∧ eval (envQ 3) Src.asls = 1 / 100 ∧ eval (envQ (-3)) Src.asls = 99 / 100 := by decide +kernel
+example : Src.arplsTranslated = true ∧ 0 ≤ eval (envQ 7) Src.arpls ∧ eval (envQ 7) Src.arpls < eval (envQ (-1)) Src.arpls ∧
+    eval (envQ (-1)) Src.arpls ≤ 1 := by decide +kernel
+example : Src.asplsTranslated = true ∧ 0 ≤ eval (envQ 7) Src.aspls ∧ eval (envQ 7) Src.aspls < eval (envQ (-1)) Src.aspls ∧
+    eval (envQ (-1)) Src.aspls ≤ 1 := by decide +kernel
+example : Src.drplsTranslated = true ∧ 0 ≤ eval (envQ 7) Src.drpls ∧ eval (envQ 7) Src.drpls < eval (envQ (-1)) Src.drpls ∧
+    eval (envQ (-1)) Src.drpls ≤ 1 := by decide +kernel
+example : Src.lsrplsTranslated = true ∧ 0 ≤ eval (envQ 7) Src.lsrpls ∧ eval (envQ 7) Src.lsrpls < eval (envQ (-1)) Src.lsrpls ∧
+    eval (envQ (-1)) Src.lsrpls ≤ 1 := by decide +kernel
+example : Src.iarplsTranslated = true ∧ eval (envQ 7) Src.iarpls ≠ eval (envQ (-1)) Src.iarpls := by decide +kernel
+example : Src.psalsaTranslated = true ∧ 0 ≤ eval (envQ 7) Src.psalsa ∧ eval (envQ 7) Src.psalsa < eval (envQ 1) Src.psalsa ∧
+    eval (envQ 1) Src.psalsa < eval (envQ (-1)) Src.psalsa ∧ eval (envQ (-1)) Src.psalsa ≤ 1 := by decide +kernel
+example : Src.derpsalsaTranslated = true ∧ 0 ≤ eval (envQ 7) Src.derpsalsa ∧ eval (envQ 7) Src.derpsalsa < eval (envQ 1) Src.derpsalsa ∧
+    eval (envQ 1) Src.derpsalsa < eval (envQ (-1)) Src.derpsalsa ∧ eval (envQ (-1)) Src.derpsalsa ≤ 1 := by decide +kernel
+example : Src.airplsTranslated = true ∧ eval (envQ 7) Src.airpls = 0 ∧ eval (envQ (-1)) Src.airpls < eval (envQ (-4)) Src.airpls ∧
+    1 < eval (envQ (-4)) Src.airpls := by decide +kernel
+example : Src.airplsNormTranslated = true ∧ eval (envQ 7) Src.airplsNorm = 0 ∧
+    eval (envQ (-1)) Src.airplsNorm < eval (envQ (-4)) Src.airplsNorm ∧ eval (envQ (-4)) Src.airplsNorm ≤ 1 := by decide +kernel
+example : Src.quantileTranslated = true ∧ 0 < eval (envQ 2) Src.quantile ∧ eval (envQ 2) Src.quantile ≠ eval (envQ (-2)) Src.quantile := by
+  decide +kernel
+end nonvacuity
 
 omit hT in
 /-- **stop rule** (all hosts share the skeleton `Loop.runLoop`): the iteration stops at the FIRST recorded
